@@ -179,7 +179,10 @@ fn scen_proof_selftest(_ctx: &mut Ctx) {}
 fn dispatch(ctx: &mut Ctx) {
     let p = ctx.property.clone();
     match p.as_str() {
-        "C04" => scen_core::c04(ctx),
+        "C04" => {
+            scen_core::c04(ctx);
+            scen_core::c04_tall(ctx);
+        }
         "C05" => scen_core::c05(ctx),
         "C06" => {
             scen_core::c06(ctx);
